@@ -1,6 +1,7 @@
 //! blsful verification harness: replays TLC-generated vectors on the real library (spec -> impl)
 //! and records traces of the real library for TLC to validate (impl -> spec).
 mod codec;
+mod codecs;
 mod conc;
 mod elgamal;
 mod pok;
@@ -39,6 +40,8 @@ fn run_vector(v: &Value, group: &str, conc: &Conc, tables: &Tables) -> signet::O
         ("ElGamal", "G2") => elgamal::run::<Bls12381G2Impl, RefG2>(v, conc, tables),
         ("Pok", "G1") => pok::run::<Bls12381G1Impl, RefG1>(v, conc, tables),
         ("Pok", "G2") => pok::run::<Bls12381G2Impl, RefG2>(v, conc, tables),
+        ("Codec", "G1") => codecs::run::<Bls12381G1Impl, RefG1>(v, conc, tables, "G1"),
+        ("Codec", "G2") => codecs::run::<Bls12381G2Impl, RefG2>(v, conc, tables, "G2"),
         ("Threshold", "G1") => threshold::run::<Bls12381G1Impl, RefG1>(v, conc, tables),
         ("Threshold", "G2") => threshold::run::<Bls12381G2Impl, RefG2>(v, conc, tables),
         (s, g) => signet::Outcome::fail(json!({}), format!("no interpreter for spec {s} group {g}")),
@@ -176,6 +179,8 @@ fn record_cmd(args: &[String]) -> i32 {
         match (driver, g.as_str()) {
             ("signet", "G1") => record::drive_signet::<Bls12381G1Impl>(&mut log, seed, events, mix),
             ("signet", "G2") => record::drive_signet::<Bls12381G2Impl>(&mut log, seed.wrapping_add(1), events, mix),
+            ("fuzz", "G1") => codecs::drive_fuzz::<Bls12381G1Impl>(&mut log, seed, events, &Tables::load(arg(args, "--tables").expect("--tables")), "G1"),
+            ("fuzz", "G2") => codecs::drive_fuzz::<Bls12381G2Impl>(&mut log, seed.wrapping_add(1), events, &Tables::load(arg(args, "--tables").expect("--tables")), "G2"),
             (d, g) => {
                 eprintln!("unknown driver/group {d}/{g}");
                 return 2;
